@@ -57,6 +57,11 @@ pub struct TlsCase {
     /// server name and the certificate check follow the URI, never this header
     #[serde(default)]
     pub host_header: Option<String>,
+    /// this many *more* requests (all labelled HTTP/2, each in its own task) are issued at the same
+    /// instant through the same pooled client: they share - or queue behind - one connection
+    /// attempt, and each of them must get the response or the handshake's error
+    #[serde(default)]
+    pub concurrent: u8,
 }
 
 pub struct TlsSim;
@@ -176,7 +181,7 @@ impl TlsSim {
                         let _ = run_server(acc, ServerProto::Auto, cfg, ctx, SimExecutor::default(), None).await;
                     }));
                 }
-                let cfg = super::ClientCfg { pool: true, idle_timeout_ms: None, max_idle: 32, continue_after_preemption: true, alpn_h2: false, timeout_ms: None, order: order_of(case) };
+                let cfg = super::ClientCfg { pool: true, idle_timeout_ms: None, max_idle: 32, continue_after_preemption: true, alpn_h2: false, timeout_ms: None, order: order_of(case), busy: 0 };
                 let svc = super::build_client(&net, &cfg, true);
                 let send = |u: String, id: u32| {
                     let svc = svc.clone();
@@ -308,6 +313,7 @@ impl Scenario for TlsSim {
             via_client: r.chance(1, 3),
             prior_plain: false,
             host_header: if r.chance(1, 4) { Some(r.pick(&["sim.test", "other.example", "a.test:8443", "127.0.0.1"]).to_string()) } else { None },
+            concurrent: *Rng::keyed(seed, "tls/concurrent").weighted(&[(3, 0u8), (1, 2), (1, 3)]),
         }
     }
 
@@ -319,6 +325,8 @@ impl Scenario for TlsSim {
         let local = tokio::task::LocalSet::new();
         let uri = uri_of(case);
         let use_tls = matches!(case.scheme.to_ascii_lowercase().as_str(), "https" | "wss");
+        // (only through the pooled client, and only where TLS is in play)
+        let concurrent = if case.via_client && use_tls { case.concurrent } else { 0 };
         if case.prior_plain && use_tls && case.port.is_some() {
             return self.execute_with_plain_history(case);
         }
@@ -352,9 +360,11 @@ impl Scenario for TlsSim {
                         let peer = other.clone();
                         let cert = case.cert;
                         tokio::task::spawn_local(async move {
-                            use hyperdriver::server::conn::AcceptExt;
-                            if let Ok(s) = acc.accept().await {
-                                raw_peer(s, peer, cert).await;
+                            // (every connection gets the same treatment: a client that dials again
+                            // is judged on the dial count, not left hanging in the listen queue)
+                            let mut acc = acc;
+                            while let Ok(s) = std::future::poll_fn(|cx| hyperdriver::server::conn::Accept::poll_accept(std::pin::Pin::new(&mut acc), cx)).await {
+                                tokio::task::spawn_local(raw_peer(s, peer.clone(), cert));
                             }
                         })
                     }
@@ -364,22 +374,44 @@ impl Scenario for TlsSim {
                 // ---- the client attempt
                 let attempt = async {
                     if case.via_client {
-                        let cfg = super::ClientCfg { pool: true, idle_timeout_ms: None, max_idle: 32, continue_after_preemption: true, alpn_h2: case.client_alpn_h2, timeout_ms: None, order: order_of(case) };
+                        let cfg = super::ClientCfg { pool: true, idle_timeout_ms: None, max_idle: 32, continue_after_preemption: true, alpn_h2: case.client_alpn_h2, timeout_ms: None, order: order_of(case), busy: 0 };
                         let svc = super::build_client(&net, &cfg, true);
-                        let mut rb = http::Request::builder().method("GET").uri(uri.as_str()).header("x-req-id", "1").header("x-body-len", "0");
-                        if let Some(h) = &case.host_header {
-                            rb = rb.header(http::header::HOST, h.as_str());
-                        }
-                        let req = rb.body(ChunkBody::default()).unwrap();
-                        match svc.oneshot(req).await {
-                            Ok(resp) => {
-                                use http_body_util::BodyExt;
-                                let status = resp.status().as_u16();
-                                let id = resp.headers().get("x-req-id").and_then(|v| v.to_str().ok()).map(|s| s.to_string());
-                                let body = resp.into_body().collect().await.map(|b| b.to_bytes().to_vec());
-                                Ok((status, id, body.unwrap_or_default()))
+                        let make_req = |h2: bool| {
+                            let mut rb = http::Request::builder().method("GET").uri(uri.as_str()).header("x-req-id", "1").header("x-body-len", "0");
+                            if h2 {
+                                rb = rb.version(http::Version::HTTP_2);
                             }
-                            Err(e) => Err(format!("{}", e)),
+                            if let Some(h) = &case.host_header {
+                                rb = rb.header(http::header::HOST, h.as_str());
+                            }
+                            rb.body(ChunkBody::default()).unwrap()
+                        };
+                        type One = Result<(u16, Option<String>, Vec<u8>), String>;
+                        async fn one(svc: super::ClientSvc, req: http::Request<ChunkBody>) -> One {
+                            match svc.oneshot(req).await {
+                                Ok(resp) => {
+                                    use http_body_util::BodyExt;
+                                    let status = resp.status().as_u16();
+                                    let id = resp.headers().get("x-req-id").and_then(|v| v.to_str().ok()).map(|s| s.to_string());
+                                    let body = resp.into_body().collect().await.map(|b| b.to_bytes().to_vec());
+                                    Ok((status, id, body.unwrap_or_default()))
+                                }
+                                Err(e) => Err(format!("{}", e)),
+                            }
+                        }
+                        if concurrent > 0 {
+                            let handles: Vec<_> = (0..=concurrent).map(|_| tokio::task::spawn_local(one(svc.clone(), make_req(true)))).collect();
+                            let mut results: Vec<One> = vec![];
+                            for h in handles {
+                                results.push(h.await.unwrap_or_else(|e| Err(format!("request task: {}", e))));
+                            }
+                            if results.iter().all(|r| r.is_ok()) {
+                                results.remove(0)
+                            } else {
+                                Err(results.iter().map(|r| r.as_ref().err().cloned().unwrap_or_else(|| "ok".into())).collect::<Vec<_>>().join(" | "))
+                            }
+                        } else {
+                            one(svc, make_req(false)).await
                         }
                     } else {
                         use hyperdriver::client::conn::transport::TransportExt;
@@ -474,8 +506,8 @@ impl Scenario for TlsSim {
         } else if !first.is_empty() && !looks_ascii && ok {
             viol("tls_on_plain_scheme", "first_bytes", format!("{}: scheme is not https/wss but the first bytes are not a plaintext request: {:02x?}", uri, &first[..first.len().min(8)]));
         }
-        // (d) no retry
-        if dials > 1 {
+        // (d) no retry (several concurrent requests may legitimately dial more than once)
+        if dials > 1 && concurrent == 0 {
             viol("redial_after_failure", "dials", format!("{}: {} dials for one connection attempt", uri, dials));
         }
         if let Err(e) = &res {
@@ -538,7 +570,7 @@ impl Scenario for TlsSim {
         sig.push(case.cert as u64);
         sig.push(case.client_alpn_h2 as u64 * 2 + case.server_alpn_h2 as u64);
         sig.push_str(&match &case.peer { Peer::RawTruncated { at, stall } => format!("trunc{}-{}", at / 64, stall), p => format!("{:?}", p) });
-        sig.push(case.via_client as u64);
+        sig.push(case.via_client as u64 + 2 * concurrent as u64);
         sig.push_str(case.host_header.as_deref().unwrap_or("-"));
         out.abstract_sig = sig.0;
         let mut log = Digest::default();
@@ -559,7 +591,12 @@ impl Scenario for TlsSim {
             c.io_faulty = false;
             v.push(c);
         }
-        if case.via_client {
+        if case.concurrent > 0 {
+            let mut c = case.clone();
+            c.concurrent -= 1;
+            v.push(c);
+        }
+        if case.via_client && case.concurrent == 0 {
             let mut c = case.clone();
             c.via_client = false;
             v.push(c);
@@ -604,7 +641,31 @@ fn enumerated() -> Vec<TlsCase> {
         via_client: false,
         prior_plain: false,
         host_header: None,
+        concurrent: 0,
     };
+    // several requests behind one connection attempt whose handshake fails, or succeeds
+    for (peer, cert) in [
+        (Peer::RawClose, CertKind::Good),
+        (Peer::RealTls, CertKind::Good),
+        (Peer::RealTls, CertKind::Untrusted),
+        (Peer::RealTls, CertKind::Expired),
+        (Peer::RawPlaintext, CertKind::Good),
+        (Peer::RawTruncated { at: 100, stall: false }, CertKind::Good),
+        (Peer::RawTruncated { at: 1500, stall: false }, CertKind::Mismatch),
+    ] {
+        for scheme in ["https", "wss"] {
+            for (c_h2, s_h2) in [(false, false), (true, true)] {
+                for concurrent in [1u8, 2, 3] {
+                    let mut c = base(scheme, "sim.test", cert, peer.clone());
+                    c.via_client = true;
+                    c.client_alpn_h2 = c_h2;
+                    c.server_alpn_h2 = s_h2;
+                    c.concurrent = concurrent;
+                    v.push(c);
+                }
+            }
+        }
+    }
     // a caller-supplied Host header that names another host than the URI
     for (host, hdr) in [("other.example", "sim.test"), ("sim.test", "other.example"), ("[::1]", "sim.test:8443"), ("10.0.0.9", "sim.test"), ("sim.test", "10.0.0.9")] {
         for scheme in ["https", "wss"] {
